@@ -1156,6 +1156,10 @@ pub mod verif_session_end {
         Peer,
         /// this peer is no longer configured
         Gone,
+        /// only OTHER peers' entries differ (one is added, with its own hold
+        /// time); the main configuration and this peer's entry are what
+        /// they were
+        Others,
     }
 
     pub enum Event {
@@ -1238,6 +1242,9 @@ pub mod verif_session_end {
             }
             Some(Reconf::Peer) => {
                 "[peers.\"1.2.3.4\"]\nname = \"verif\"\nremote_asn = []\nhold_time = 30\n"
+            }
+            Some(Reconf::Others) => {
+                "[peers.\"1.2.3.4\"]\nname = \"verif\"\nremote_asn = []\n\n[peers.\"5.6.7.8\"]\nname = \"other\"\nremote_asn = []\nhold_time = 30\n"
             }
             _ => "[peers.\"1.2.3.4\"]\nname = \"verif\"\nremote_asn = []\n",
         };
